@@ -144,7 +144,10 @@ def finish(rt, ctx, pid, level, cov, viol, known_seen, assumptions):
 
 
 def do_replay(rt, ctx, pid):
-    d = json.load(open(ctx["replay"]))
+    try:
+        d = json.load(open(ctx["replay"]))
+    except ValueError:
+        d = {}   # a TLC counterexample of the model itself (text)
     if "excerpt" not in d:
         rt.log(open(ctx["replay"]).read()[-3000:])
         rt.log("VIOLATION property=%s replay=%s" % (pid, ctx["replay"]))
